@@ -36,11 +36,13 @@ func main() {
 		replay(c)
 		c.Finish()
 	}
+	tb := time.Now()
 	bin, err := proc.Build(c.RepoDir, c.Scratch, "ts-server", false)
 	if err != nil {
 		c.Broken("build ts-server: %v", err)
 		c.Finish()
 	}
+	c.Extra("build-seconds", time.Since(tb).Seconds())
 	var wg sync.WaitGroup
 	wg.Add(1)
 	go func() {
@@ -49,8 +51,14 @@ func main() {
 	}()
 	rounds := c.Pick(1, 4)
 	for r := 0; r < rounds; r++ {
-		a, b := genSpecs(c.Rand(uint64(1000+r)), c.Thorough(), r)
-		runRound(c, bin, r, a, b)
+		a, b, st := genSpecs(c.Rand(uint64(1000+r)), c.Thorough(), r)
+		switch os.Getenv("VERIF_C14_ONLY") {
+		case "storm":
+			a, b = nil, nil
+		case "nostorm":
+			st = nil
+		}
+		runRound(c, bin, r, a, b, st)
 		if c.Violations() > 0 && r+1 < rounds {
 			break
 		}
@@ -61,7 +69,7 @@ func main() {
 
 // runRound runs the scenarios a on a normally loading server and b on a server that is
 // restarted with lazy shard loading between writing and expiry; both at the same time.
-func runRound(c *vf.Ctx, bin string, round int, a, b []spec) {
+func runRound(c *vf.Ctx, bin string, round int, a, b, st []spec) {
 	var wg sync.WaitGroup
 	if len(a) > 0 {
 		wg.Add(1)
@@ -77,6 +85,13 @@ func runRound(c *vf.Ctx, bin string, round int, a, b []spec) {
 			runWorld(c, newWorld(c, fmt.Sprintf("r%db", round), bin, 2*round+1, true), round, b)
 		}()
 	}
+	if len(st) > 0 {
+		wg.Add(1)
+		go func() {
+			defer wg.Done()
+			runWorld(c, newWorld(c, fmt.Sprintf("r%dc", round), bin, 100+round, false), round, st)
+		}()
+	}
 	wg.Wait()
 }
 
@@ -86,10 +101,12 @@ func runWorld(c *vf.Ctx, w *world, round int, specs []spec) {
 		return
 	}
 	defer w.srv.Kill()
-	if err := w.ready(120 * time.Second); err != nil {
+	ts := time.Now()
+	if err := w.ready(240 * time.Second); err != nil {
 		c.Broken("%s: %v", w.name, err)
 		return
 	}
+	c.Extra("ready-seconds-"+w.name, time.Since(ts).Seconds())
 	w.startPollers()
 	for i, sp := range specs {
 		sc := &scen{Spec: sp, w: w, db: fmt.Sprintf("c14r%ds%d", round, sp.ID), rng: c.Rand(uint64(5000 + 200*round + i)), refused: map[string]int{}}
@@ -109,6 +126,9 @@ func runWorld(c *vf.Ctx, w *world, round int, specs []spec) {
 		wg.Wait()
 	}
 	if !w.lazy {
+		if nst := countKind(specs, "storm"); nst > 0 {
+			go w.pauser(nst)
+		}
 		each(func(sc *scen) { sc.run() })
 	} else {
 		each(func(sc *scen) { sc.phase1() })
@@ -119,7 +139,7 @@ func runWorld(c *vf.Ctx, w *world, round int, specs []spec) {
 			c.Broken("%s: restart: %v", w.name, err)
 			return
 		}
-		if err := w.ready(120 * time.Second); err != nil {
+		if err := w.ready(240 * time.Second); err != nil {
 			c.Broken("%s: after restart: %v", w.name, err)
 			return
 		}
@@ -265,4 +285,14 @@ func panicHead(s string) string {
 		s = s[:3500]
 	}
 	return s
+}
+
+func countKind(specs []spec, kind string) int {
+	n := 0
+	for _, sp := range specs {
+		if sp.Kind == kind {
+			n++
+		}
+	}
+	return n
 }
